@@ -277,6 +277,12 @@ class Report:
         except Incomplete as e:
             self.incomplete.append(str(e))
             return None
+        except (KeyError, IndexError, TypeError, AttributeError, ValueError, StopIteration, AssertionError) as e:
+            # a rule met a program shape it was not written for: no verdict from this group (fail closed), never a crash
+            import traceback
+            where = traceback.extract_tb(e.__traceback__)[-1]
+            self.incomplete.append(f"rule group {getattr(fn, '__name__', '?')} could not interpret the program shape it met ({type(e).__name__}: {str(e)[:80]} at {os.path.basename(where.filename)}:{where.lineno}) — no verdict from this group")
+            return None
 
 
 def load_known():
